@@ -2,7 +2,9 @@ import StorageModel.Query.BoltProofs
 import StorageModel.Query.Resolve
 import StorageModel.Query.TreeQueries
 import StorageModel.Query.ObjectzTime
+import StorageModel.Query.ObjectzHistory
 import StorageModel.Generated.PagingFacts
+import StorageModel.Generated.ObjectzStore
 /-
   C19 — In-memory object store answers queries like the bolt-backed store.
 
@@ -484,6 +486,141 @@ example :
     tIds (objQueryTPW objCmpTimeValStructEq (sortScanT expectedPaging) timeSyms (some timeObjs.reverse) (fun _ => true)
       [⟨"t", true⟩] ⟨none, some 1⟩) = some ([[99]], 4) := by decide
 
+/-! ### histories of calls on one store object (round 10)
+
+`Query/ObjectzHistory.lean`: the `ObjectStore` object, the bolt store, the collection behind them, and the parsed query
+objects a caller keeps, over any sequence of calls — `QueryEntities(text)` / `QueryIds(tx, text)`, `ast.Parse` into a kept
+object, `QueryEntitiesC(q)` / `QueryIdsC(tx, q)` with that object (on either store, in any interleaving), `SetSkip` /
+`SetLimit` on it, and changes of the collection. -/
+
+/-- Obligation on regenerated data: an `ObjectStore` has exactly the fields `symbols` and `iteratorF`, package objectz has
+    no package-level variable, no function outside the set-up (`NewObjectStore`, `Add…Symbol`) writes to (or calls a method
+    on) a store field, and `QueryEntities` / `QueryEntitiesC` are "parse, then a fresh scanner".  This is what entitles the
+    history model to carry no state of the store object from one call to the next. -/
+theorem objectz_store_facts_expected : Generated.objectzStore = expectedObjStore := by decide
+
+/-- **history_independent.**  For EVERY history of calls on one object store / one bolt store — any length, any
+    interleaving of the two stores and of several object stores over one collection, query objects reused across calls
+    and across stores, skip / limit changed in between, the collection changed in between — and for every way `parse` of
+    turning texts into query objects: each answer is the stand-alone answer of that call, i.e. what stores that have never
+    been used answer for the call's own request (its own text; for a kept object: the text parsed into it and the skip /
+    limit the caller set last) on the collection as it is at that moment.  Earlier calls, earlier texts, and the paging
+    defaults earlier executions wrote into a kept object leave no trace. -/
+theorem history_independent {Text : Type} (parse : Text → Option CQuery) (W : HStores) (st : HState) (calls : List (Call Text)) :
+    history parse Generated.objectzPaging Generated.boltzPaging W st calls =
+      specHistory parse Generated.objectzPaging Generated.boltzPaging W st calls := by
+  rw [objectz_paging_facts_expected, boltz_paging_facts_expected]
+  exact history_eq_spec parse W calls st st (stateAgrees_refl st)
+
+/-- one stand-alone execution: the object store answers what the bolt store answers (`objectz_eq_bolt_any_filter`) -/
+theorem standAlone_objectz_eq_bolt (W : HStores) (st : HState) (k : Nat) (q : CQuery) (h : GoodExec W st k q) :
+    standAlone Generated.objectzPaging Generated.boltzPaging W st.objs st.bucket (.obj k) q =
+      (standAlone Generated.objectzPaging Generated.boltzPaging W st.objs st.bucket .bolt q).norm := by
+  obtain ⟨objs, rows, N, c, ho, hb, hperm, hord, hid, hschema, hc, hloc, hw, hq, hlen⟩ := h
+  simp only [standAlone, runOn, Answer.norm, liftBolt]
+  congr 1
+  exact objectz_eq_bolt_any_filter (W.ostore k st.objs) (W.bstore st.bucket) objs rows q.ev N q.sort q.paging c
+    (by simp only [HStores.ostore, ho]) (by simp only [HStores.bstore, hb]) hperm (fun _ => rfl) hord hid hschema hc hloc hw hq hlen
+
+/-- one stand-alone execution answers the page of the objects that satisfy the predicate, in the requested order, and
+    their number (`objectz_exact_pred`) -/
+theorem standAlone_objectz_exact (W : HStores) (st : HState) (k : Nat) (q : CQuery) (h : GoodExec W st k q) :
+    ∃ (objs : List Row) (c : Cmp Row), st.objs = some objs ∧ newRowComparator (W.ostore k st.objs).schema q.sort = .ok c ∧
+      standAlone Generated.objectzPaging Generated.boltzPaging W st.objs st.bucket (.obj k) q =
+        .obj (.ok (page c q.paging.skip q.paging.limit (objs.filter fun r => q.ev (boltSymbols r)),
+                   total (objs.filter fun r => q.ev (boltSymbols r)))) := by
+  obtain ⟨objs, rows, N, c, ho, hb, hperm, hord, hid, hschema, hc, hloc, hw, hq, hlen⟩ := h
+  refine ⟨objs, c, ho, hc, ?_⟩
+  have hd : DistinctIds objs := by
+    have := hord.distinct
+    unfold DistinctIds at *
+    exact hperm.symm.pairwise this (fun h => Ne.symm h)
+  simp only [standAlone, runOn]
+  congr 1
+  exact objectz_exact_pred (W.ostore k st.objs) objs q.ev (fun r => q.ev (boltSymbols r)) q.sort q.paging c
+    (by simp only [HStores.ostore, ho]) hd hid hc
+    (fun r hr => hloc _ _ (fun n hn => typedView_obj_eq_bolt (W.ostore k st.objs) r n (hw r hr n hn))) hq
+    (by rw [hperm.length_eq]; exact hlen)
+
+/-- **objectz = bolt, over histories.**  Take any history in which every execution on an object store happens under the
+    hypotheses of `objectz_eq_bolt_any_filter` (for the collection and the request as they stand at that call), and send
+    every query of it to the bolt store instead: the two histories give the same answers, position by position — same
+    objects, same order, same count, same error. -/
+theorem history_objectz_eq_bolt {Text : Type} (parse : Text → Option CQuery) (W : HStores) (st : HState) (calls : List (Call Text))
+    (hg : GoodFrom parse Generated.objectzPaging Generated.boltzPaging W st calls) :
+    (history parse Generated.objectzPaging Generated.boltzPaging W st calls).map Answer.norm =
+      (history parse Generated.objectzPaging Generated.boltzPaging W st (calls.map Call.toBolt)).map Answer.norm := by
+  rw [history_independent, history_independent]
+  induction calls generalizing st with
+  | nil => rfl
+  | cons c cs ih =>
+    obtain ⟨hc, hrest⟩ := hg
+    simp only [List.map_cons, specHistory]
+    rw [specStep_toBolt_state, ih _ hrest]
+    congr 1
+    cases c with
+    | setData o b => rfl
+    | parse k s => rfl
+    | setSkip k v => rfl
+    | setLimit k v => rfl
+    | text t s =>
+      simp only [Call.toBolt, specStep]
+      cases hp : parse s with
+      | none => rfl
+      | some q =>
+        cases t with
+        | bolt => rfl
+        | obj k =>
+          simp only
+          rw [standAlone_objectz_eq_bolt W st k q (hc q hp)]
+          cases standAlone Generated.objectzPaging Generated.boltzPaging W st.objs st.bucket .bolt q <;> rfl
+    | exec j t =>
+      simp only [Call.toBolt, specStep]
+      cases hs : st.slots j with
+      | none => rfl
+      | some q =>
+        cases t with
+        | bolt => rfl
+        | obj k =>
+          simp only
+          rw [standAlone_objectz_eq_bolt W st k q (hc q hs)]
+          cases standAlone Generated.objectzPaging Generated.boltzPaging W st.objs st.bucket .bolt q <;> rfl
+
+/-! non-vacuity: a history over `exStore`'s collection (sorted by id for the bolt store) whose executions are all good -/
+
+def hW : HStores := ⟨fun _ => exSymbols, exSymbols.map fun (n, t) => (n, ⟨t, false⟩)⟩
+def hRows : List Row := [⟨[97], [("s", .nil), ("i", .nil)]⟩, ⟨[98], [("s", .string []), ("i", .int32 5)]⟩,
+  ⟨[99], [("s", .string [120]), ("i", .int64 5)]⟩]
+def hSt : HState := ⟨some exObjs, some hRows, fun _ => none⟩
+def hParse (t : Option Int) : Option CQuery := some ⟨fun _ => true, [⟨"i", false⟩], ⟨none, t⟩⟩
+
+theorem hGoodExec (slots : Nat → Option CQuery) (k : Nat) (p : Paging) (hp : p.InRange) :
+    GoodExec hW ⟨some exObjs, some hRows, slots⟩ k ⟨fun _ => true, [⟨"i", false⟩], p⟩ := by
+  obtain ⟨c, hc⟩ : ∃ c, newRowComparator (hW.ostore k (some exObjs)).schema [⟨"i", false⟩] = .ok c := ⟨_, rfl⟩
+  refine ⟨exObjs, hRows, [], c, rfl, rfl, ?_, ?_, rfl, ?_, hc, ?_, ?_, hp, ?_⟩
+  · exact List.perm_append_comm (l₁ := [_]) (l₂ := [_, _])
+  · unfold BucketOrdered; decide
+  · intro f hf
+    simp only [List.cons_append, List.nil_append, List.mem_cons, List.mem_nil_iff, or_false] at hf
+    rcases hf with rfl | rfl <;> rfl
+  · intro _ _ _; rfl
+  · intro _ _ n hn; cases hn
+  · decide
+
+example : GoodFrom hParse Generated.objectzPaging Generated.boltzPaging hW hSt
+    [.text (.obj 0) (some 1), .parse 3 none, .exec 3 (.obj 1), .exec 3 .bolt, .setLimit 3 2, .exec 3 (.obj 0)] := by
+  refine ⟨?_, trivial, ?_, trivial, trivial, ?_, trivial⟩
+  · intro q hq; cases hq
+    exact hGoodExec _ 0 _ (by constructor <;> intro v hv <;> cases hv <;> simp [InI64, minI64, maxI64])
+  · intro q hq
+    simp only [specStep, hParse, setSlot] at hq
+    cases hq
+    exact hGoodExec _ 1 _ (by constructor <;> intro v hv <;> cases hv)
+  · intro q hq
+    simp only [specStep, hParse, setSlot, standAlone, Option.map, withLimit] at hq
+    cases hq
+    exact hGoodExec _ 0 _ (by constructor <;> intro v hv <;> cases hv <;> simp [InI64, minI64, maxI64])
+
 end StorageModel.Properties.C19
 
 #print axioms StorageModel.Properties.C19.objectz_paging_facts_expected
@@ -500,3 +637,8 @@ end StorageModel.Properties.C19
 #print axioms StorageModel.Properties.C19.objectz_nil_iterator_empty
 #print axioms StorageModel.Properties.C19.objectz_time_representation_irrelevant
 #print axioms StorageModel.Properties.C19.objectz_eq_bolt_time_values
+#print axioms StorageModel.Properties.C19.objectz_store_facts_expected
+#print axioms StorageModel.Properties.C19.history_independent
+#print axioms StorageModel.Properties.C19.standAlone_objectz_eq_bolt
+#print axioms StorageModel.Properties.C19.standAlone_objectz_exact
+#print axioms StorageModel.Properties.C19.history_objectz_eq_bolt
